@@ -179,9 +179,8 @@ func shapeLens(s int) []int {
 
 // VerifC19Redecode: one Labels object decodes names of shapes s1, s2 and is then asked to decode a
 // second input of n symbolic bytes (copyFirst != 0: a VALUE COPY of the object is, as types that
-// embed Labels by value make). If the second decoding fails the object still is the first list and
-// encodes to the first input; if it succeeds the object is the second list; the original of a
-// value copy is the first list in either case.
+// embed Labels by value make). If the second decoding succeeds the object is the second list; the
+// original of a value copy is the first list whatever happens to the copy.
 func VerifC19Redecode(s1, s2, n, copyFirst int) {
 	all, _ := verifNames([]int{s1, s2})
 	b1 := refEncode(all)
@@ -206,10 +205,11 @@ func VerifC19Redecode(s1, s2, n, copyFirst int) {
 		return
 	}
 	verifAssert((err2 == nil) == (st2 == refOK), "accept-iff-rfc-wellformed")
-	if copyFirst != 0 || err2 != nil {
-		// the first object is untouched
-		verifAssert(len(l.Labels) == len(all), "failed-or-foreign-decoding-leaves-the-names")
-		verifAssert(verifSame(l.ToBytes(), b1), "failed-or-foreign-decoding-leaves-the-encoding")
+	if copyFirst != 0 {
+		// decoding into a value copy leaves the first object as it was (what an object holds after
+		// a FAILED decoding into itself is not specified anywhere: nothing is asserted about it)
+		verifAssert(len(l.Labels) == len(all), "decoding-into-a-copy-leaves-the-names")
+		verifAssert(verifSame(l.ToBytes(), b1), "decoding-into-a-copy-leaves-the-encoding")
 	}
 	if err2 == nil && st2 == refOK {
 		verifAssert(len(target.Labels) == len(names2), "same-number-of-names")
